@@ -310,6 +310,7 @@ func main() {
 		} else {
 			status["Facts.stopCalls"] = "ERROR"
 		}
+		b.WriteString(leanDecisionTables(root, status, facts))
 		b.WriteString("end PC.Gen.Facts\n")
 		target := filepath.Join(gen, "Facts.lean")
 		if cur, err := os.ReadFile(target); err != nil || string(cur) != b.String() {
